@@ -158,13 +158,10 @@ fn k_entry_fields() {
     }
 }
 
-/// K-ENTRY-SHORT: fewer than 16 bytes is an error, never a panic (C04).
-#[kani::proof]
-#[kani::unwind(20)]
-fn k_entry_short() {
+/// K-ENTRY-SHORT: fewer than 16 bytes is an error, never a panic (C04).  Lengths 0, 3, 4, 8, 12, 15:
+/// one below / at every field boundary.
+fn entry_short(n: usize) {
     let b: [u8; 15] = kani::any();
-    let n: usize = kani::any();
-    kani::assume(n <= 15);
     match IndexEntry::<IndexTag>::parse(&b[..n]) {
         Ok((_, e)) => {
             std::mem::forget(e);
@@ -172,6 +169,16 @@ fn k_entry_short() {
         }
         Err(er) => std::mem::forget(er),
     }
+}
+#[kani::proof]
+#[kani::unwind(20)]
+fn k_entry_short() {
+    entry_short(0);
+    entry_short(3);
+    entry_short(4);
+    entry_short(8);
+    entry_short(12);
+    entry_short(15);
 }
 
 /// K-WRITE-INDEX-SINK (C14), bounded twin of the Verus obligation IndexEntry::write_index (which
@@ -388,4 +395,156 @@ fn k_dec_u64() {
     }
     assert!(items.capacity() <= 16);
     std::mem::forget(items);
+}
+
+// ---- typed getters (contracts of verus/prelude/getters.rs) --------------------------------------
+fn mk_data(kind: u8, x: u8) -> IndexData {
+    match kind {
+        0 => IndexData::Null,
+        1 => IndexData::Bin(vec![x, 7]),
+        2 => IndexData::StringTag(String::from("s")),
+        3 => IndexData::StringArray(vec![String::from("a")]),
+        4 => IndexData::I18NString(vec![String::from("i")]),
+        5 => IndexData::Int32(vec![x as u32 + 1000, 5]),
+        6 => IndexData::Int64(vec![x as u64 + 5000]),
+        7 => IndexData::Int32(Vec::new()),
+        8 => IndexData::I18NString(Vec::new()),
+        _ => IndexData::Int16(vec![x as u16]),
+    }
+}
+fn mk_header(tags: [u32; 3], kinds: [u8; 3], xs: [u8; 3]) -> Header<IndexSignatureTag> {
+    let mut entries = Vec::with_capacity(3);
+    let mut i = 0;
+    while i < 3 {
+        let data = mk_data(kinds[i], xs[i]);
+        entries.push(IndexEntry::<IndexSignatureTag> {
+            tag: tags[i],
+            num_items: data.num_items(),
+            data,
+            offset: 0,
+            entry_type: PhantomData,
+        });
+        i += 1;
+    }
+    Header { index_header: IndexHeader::new(3, 0), index_entries: entries, store: Vec::new() }
+}
+fn first_with(tags: &[u32; 3], t: u32) -> usize {
+    if tags[0] == t { 0 } else if tags[1] == t { 1 } else if tags[2] == t { 2 } else { 3 }
+}
+fn string_stub(_a: std::fmt::Arguments<'_>) -> String {
+    String::new()
+}
+fn sym_header() -> ([u32; 3], [u8; 3], [u8; 3], Header<IndexSignatureTag>) {
+    let tags: [u32; 3] = kani::any();
+    let kinds: [u8; 3] = kani::any();
+    kani::assume(kinds[0] <= 9 && kinds[1] <= 9 && kinds[2] <= 9);
+    let xs: [u8; 3] = kani::any();
+    let h = mk_header(tags, kinds, xs);
+    (tags, kinds, xs, h)
+}
+
+/// K-GETTERS (bounded: 3 entries): each typed getter returns the data of the FIRST entry carrying
+/// the tag iff its variant is the requested one; TagNotFound when absent; never panics.
+#[kani::proof]
+#[kani::unwind(6)]
+fn k_getters_binary() {
+    let (tags, kinds, xs, h) = sym_header();
+    let i = first_with(&tags, 1004);
+    match h.get_entry_data_as_binary(IndexSignatureTag::RPMSIGTAG_MD5) {
+        Ok(d) => {
+            assert!(i < 3 && kinds[i] == 1);
+            assert!(d.len() == 2 && d[0] == xs[i] && d[1] == 7);
+        }
+        Err(e) => {
+            assert!(i == 3 || kinds[i] != 1);
+            assert!(matches!(e, Error::TagNotFound(_)) == (i == 3));
+            std::mem::forget(e);
+        }
+    }
+    std::mem::forget(h);
+}
+#[kani::proof]
+#[kani::unwind(6)]
+fn k_getters_string() {
+    let (tags, kinds, _xs, h) = sym_header();
+    let i = first_with(&tags, 273);
+    match h.get_entry_data_as_string(IndexSignatureTag::RPMSIGTAG_SHA256) {
+        Ok(d) => {
+            assert!(i < 3 && kinds[i] == 2);
+            assert!(d.len() == 1 && d.as_bytes()[0] == b's');
+        }
+        Err(e) => {
+            assert!(i == 3 || kinds[i] != 2);
+            assert!(matches!(e, Error::TagNotFound(_)) == (i == 3));
+            std::mem::forget(e);
+        }
+    }
+    std::mem::forget(h);
+}
+#[kani::proof]
+#[kani::unwind(6)]
+fn k_getters_string_array() {
+    let (tags, kinds, _xs, h) = sym_header();
+    let i = first_with(&tags, 278);
+    match h.get_entry_data_as_string_array(IndexSignatureTag::RPMSIGTAG_OPENPGP) {
+        Ok(d) => {
+            assert!(i < 3 && (kinds[i] == 3 || kinds[i] == 4 || kinds[i] == 8));
+            assert!(d.len() == if kinds[i] == 8 { 0 } else { 1 });
+        }
+        Err(e) => {
+            assert!(i == 3 || !(kinds[i] == 3 || kinds[i] == 4 || kinds[i] == 8));
+            assert!(matches!(e, Error::TagNotFound(_)) == (i == 3));
+            std::mem::forget(e);
+        }
+    }
+    std::mem::forget(h);
+}
+#[kani::proof]
+#[kani::unwind(6)]
+fn k_getters_u32() {
+    let (tags, kinds, xs, h) = sym_header();
+    let i = first_with(&tags, 1000);
+    match h.get_entry_data_as_u32(IndexSignatureTag::RPMSIGTAG_SIZE) {
+        Ok(d) => {
+            assert!(i < 3 && kinds[i] == 5 && d == xs[i] as u32 + 1000);
+        }
+        Err(e) => {
+            assert!(i == 3 || kinds[i] != 5);
+            std::mem::forget(e);
+        }
+    }
+    std::mem::forget(h);
+}
+#[kani::proof]
+#[kani::unwind(6)]
+fn k_getters_u64() {
+    let (tags, kinds, xs, h) = sym_header();
+    let j = first_with(&tags, 270);
+    match h.get_entry_data_as_u64(IndexSignatureTag::RPMSIGTAG_LONGSIZE) {
+        Ok(d) => {
+            assert!(j < 3 && kinds[j] == 6 && d == xs[j] as u64 + 5000);
+        }
+        Err(e) => {
+            assert!(j == 3 || kinds[j] != 6);
+            std::mem::forget(e);
+        }
+    }
+    std::mem::forget(h);
+}
+#[kani::proof]
+#[kani::unwind(6)]
+fn k_getters_i18n() {
+    let (tags, kinds, _xs, h) = sym_header();
+    let i = first_with(&tags, 1004);
+    match h.get_entry_data_as_i18n_string(IndexSignatureTag::RPMSIGTAG_MD5) {
+        Ok(d) => {
+            assert!(i < 3 && kinds[i] == 4);
+            assert!(d.len() == 1 && d.as_bytes()[0] == b'i');
+        }
+        Err(e) => {
+            assert!(i == 3 || kinds[i] != 4);
+            std::mem::forget(e);
+        }
+    }
+    std::mem::forget(h);
 }
